@@ -96,7 +96,7 @@ impl C19 {
     /// ends of the address space (ending exactly at 2^64, starting at 0 or 0x1000, in the non-canonical hole),
     /// zero-length areas, register values on every area edge, and a few steps of history instead of one.
     fn edge_batch(&self, k: u64, rng: &mut Rng, col: &mut Collector) {
-        for j in 0..(self.batch / 8).max(1) {
+        for j in 0..(self.batch / 4).max(1) {
             let code_len = *rng.pick(&[16u64, 32, 0x40, 0x1000]);
             let code_at = match rng.below(8) {
                 0..=2 => TOP - code_len + 1,
@@ -110,7 +110,13 @@ impl C19 {
             let mut code: Vec<u8> = Vec::new();
             let mut first_len = 0usize;
             for n in 0..rng.range(1, 4) {
-                let (b, _) = self.gen_bytes(rng);
+                // mostly encodings of implemented forms: they get past the decoder and reach the operand logic
+                let (b, _) = loop {
+                    let g = self.gen_bytes(rng);
+                    if g.1 == "forms" || rng.below(3) == 0 {
+                        break g;
+                    }
+                };
                 let b = match decode(&b, 0) {
                     Some(i) => b[..i.len()].to_vec(),
                     None => b,
@@ -205,6 +211,16 @@ impl C19 {
                     _ => rng.val(),
                 };
                 let _ = ax.reg_write_64(sr(*r), v);
+            }
+            // aim the first instruction's memory operand exactly at an edge (base register only: EA = base + disp)
+            if rng.below(2) == 0 {
+                if let Some(i0) = decode(&code[..first_len.max(1).min(code.len())], rip) {
+                    let (b, x) = (i0.memory_base(), i0.memory_index());
+                    if has_mem_operand(&i0) && b.is_gpr64() && x == iced_x86::Register::None {
+                        let want = edge_val(rng);
+                        let _ = ax.reg_write_64(sr(b), want.wrapping_sub(i0.memory_displacement64()));
+                    }
+                }
             }
             for i in 0..16u32 {
                 if lazy && rng.below(2) == 0 {
